@@ -275,7 +275,11 @@ func (x *Exec) freshResult(st *State, sig *types.Signature, prefix string) (Val,
 
 // havocAll forgets every heap (used for callees without any contract).
 func (x *Exec) havocAll(st *State) {
+	x.ensureImmutableHeaps()
 	for name, h := range st.heaps {
+		if x.immutableHeaps[name] {
+			continue
+		}
 		st.heaps[name] = fresh(name, h.Sort)
 		st.modHeaps[name] = true
 	}
@@ -288,6 +292,12 @@ func (x *Exec) havocCall(st *State, fr *Frame, name string, sig *types.Signature
 		x.note("external function %s called by a package initialiser is assumed not to modify in-tree state", name)
 		res, _ := x.freshResult(st, sig, "r")
 		return res
+	}
+	for _, pre := range []string{"github.com/rs/zerolog", "(*github.com/rs/zerolog", "(github.com/rs/zerolog", "log.", "(*log.", "go.opentelemetry.io/", "(go.opentelemetry.io/", "(*go.opentelemetry.io/"} {
+		if strings.HasPrefix(name, pre) {
+			res, _ := x.freshResult(st, sig, "r")
+			return res
+		}
 	}
 	x.note("UNSPECIFIED callee %s: all heaps havocked, result arbitrary", name)
 	x.havocAll(st)
@@ -413,6 +423,11 @@ func (x *Exec) applyContract(st *State, fr *Frame, c *Contract, name string, sig
 		x.checks = append(x.checks, &Check{Name: funcDisplayName(topFrame(fr).fn) + "/cover/before:" + short + "@" + x.pos(pos), At: st.ev, Cover: true, Fn: topFrame(fr).fn.String(), Where: x.pos(pos)})
 	}
 	x.applyModifies(st, ctx, c)
+	for _, lk := range x.logsMentioned(c) {
+		if lk != logKey(c) {
+			x.advanceLog(st, lk)
+		}
+	}
 	res, vs := x.freshResult(st, sig, "ret")
 	bindResults(env, sig, vs)
 	x.logCall(st, c, short, args, vs, false)
